@@ -12,7 +12,7 @@ CHECKS = {
          "Every emitted stream is parsed by a strict walker that fails on one byte of slack/overrun, then mandatory boxes and table counts are checked.",
          "Trusted: box grammar encoded in harness/src/reader.rs.", "3/C02"),
  "C03": ("exploration", "property-based testing: generated timelines, reference exact-integer tick arithmetic vs stts/ctts/mdhd read back",
-         "Timing tables of every generated file are expanded and compared with exactly rounded submitted timestamps (deltas, drift, last duration, signed composition offsets, ctts iff non-zero, mdhd = sum).",
+         "Timing tables of every generated file are expanded and compared with exactly rounded submitted timestamps (deltas, drift, last duration, signed composition offsets, ctts iff non-zero, mdhd = sum). The convenience calls' own clocks (encode_video / encode_audio) are judged against the documented instants (auto_timestamps).",
          "Trusted: ticks_exact (integer arithmetic on the f64 mantissa), harness reader. Half-tick ties are unconstrained and counted.", "3/C03"),
  "C08": ("exploration", "property-based testing: differential/metamorphic relation between the fast-start and standard layouts of the same history",
          "Each history is muxed twice; top-level order, per-layout sample resolution and equality of the layout-free description are checked.",
@@ -30,19 +30,19 @@ CHECKS = {
          "Decisions, statistics and output bytes of H and H-minus-rejected-calls must be identical, for the progressive and the fragmented muxer; each rejected call re-inserted alone must be rejected again; fixed lists add rejection bursts (1..300 calls), long accepted runs after a rejection and more than 2^32 rejected bytes.",
          "Purely differential; no model needed.", "3/C05"),
  "C06": ("exploration", "property-based testing: recording sink + accounting model over histories with finish attempts anywhere",
-         "A sink that tags each write with the API call in progress shows that only the one successful finish writes; delivered bytes, frame counts, byte count and duration are recomputed independently.",
+         "A sink that tags each write with the API call in progress shows that only the one successful finish writes; delivered bytes, frame counts, byte count and duration are recomputed independently. scenario_statistics repeats the statistics clauses on the scenario generator's content-rich histories and against the file's own sample counts.",
          "Trusted: tick arithmetic; a lone sample's end may be pts+0 or pts+1.", "3/C06"),
  "C07": ("exploration", "property-based testing: independent bitstream writers (AV1 sequence header per spec syntax, NAL/OBU builders) -> expected configuration record",
          "The stsd entry of files and init segments is decoded per the codec bindings and compared with the structured value the keyframe was written from. Three mono_chrome signatures are listed open findings.",
          "Trusted: the AV1 header writer in gen.rs follows spec section 5.5; VP9 uses muxide's documented accepted form.", "3/C07"),
  "C10": ("exploration", "stateful property-based testing: op sequences against a queue model, every segment parsed, differential purity run",
-         "After every step the model queue, acceptance rule and sequence numbers are compared; each flushed segment is parsed and every sample located via data_offset.",
+         "After every step the model queue, acceptance rule and sequence numbers are compared; each flushed segment is parsed and every sample located via data_offset. several_muxers: the same judgement for every muxer of a pool kept alive on one thread and fed alternately.",
          "Trusted: harness segment parser (tfhd/tfdt/trun).", "3/C10"),
  "C11": ("exploration", "property-based testing: timeline relations inside and across generated segmentations",
          "In-segment deltas, signed composition offsets, non-sync flags, base decode time monotonicity/non-overlap/constant origin and init byte-stability.",
          "Constant-origin clause only judged for constant-interval input with >= 2 samples per segment, as the property states.", "3/C11"),
  "C13": ("fault_enumeration", "fault-injection enumeration over generated histories: scripted Write sink failing at every call index x 7 modes and every byte offset, plus generated short-write/Interrupted schedules",
-         "For each generated small history every sink write call and every output byte offset is a fault point (exhaustive per history); clauses: no panic, Err iff a write ultimately failed, accepted bytes are a prefix of the fault-free file, nothing written and no call succeeding after the finish, benign schedules are transparent.",
+         "For each generated small history every sink write call and every output byte offset is a fault point (exhaustive per history); clauses: no panic, Err iff a write ultimately failed, accepted bytes are a prefix of the fault-free file, nothing written and no call succeeding after the finish, benign schedules are transparent. aimed_offsets: recordings built in two passes so that a sample ends exactly at file offset 4 KiB .. 128 KiB; every write call of those fails (sticky and once) and faults after exactly 2^k accepted bytes.",
          "Trusted: std write_all semantics; unbounded Interrupted runs are not generated.", "3/C13"),
  "C14": ("exploration", "exhaustive small-scope enumeration + property-based testing against an independent reference splitter; ADTS lengths enumerated exhaustively and read back from muxed files",
          "All strings over {00,01,03,AB} up to length 10 (quick) / 13 (thorough) and all 8192 ADTS lengths x flag x buffer relation are enumerated; constructive NAL lists and random biased strings are generated.",
@@ -51,19 +51,19 @@ CHECKS = {
          "Either a call fails and the value really does not fit, or every field read back equals the exact value from the history. Nine narrowing sites are listed open findings by signature. The 4 GiB limits (mdat size, chunk offsets) are probed by a fixed list of ~4 GiB recordings (two in the quick tier, seven in the thorough tier), not searched; long recordings up to 1 048 700 samples run through the same oracle.",
          "Trusted: exact tick arithmetic; reader field widths per version.", "3/C16"),
  "C18": ("exploration", "exhaustive enumeration (all 26^3 language codes; every day 1970-9999 at two instants quick / three instants thorough, every second of whole days) + property-based titles with a metadata/no-metadata differential",
-         "Independent civil-from-days calendar, 5-bit language unpacking, udta decoder; isolation by differential description.",
+         "Independent civil-from-days calendar, 5-bit language unpacking, udta decoder; isolation by differential description. command_line: titles and languages given to the real binary (quoted, padded, line-terminated, multi-byte; ISO 639-2 B/T pairs) are read back from the file.",
          "ISO-8601 claimed to year 9999; beyond only termination (10 s deadline).", "3/C18"),
  "C19": ("exploration", "property-based testing over configurations with strict specification-derived decoders per box and record",
-         "Every fixed-layout box/record of progressive files, init segments and media segments is decoded strictly (size, version, flags, reserved bits, positions). The progressive tkhd length/flags deviations are listed open findings; its remaining fields are still judged at the shifted positions.",
+         "Every fixed-layout box/record of progressive files, init segments and media segments is decoded strictly (size, version, flags, reserved bits, positions). The progressive tkhd length/flags deviations are listed open findings; its remaining fields are still judged at the shifted positions. av1C profile/level/tier are compared with the sequence header in the record's own configOBUs; the handler type with the sample entry's coding and the media header box.",
          "Trusted: my reading of ISO/IEC 14496-12/-14/-15 and the AV1/VP9/Opus bindings (appendix A of DESIGN.md).", "3/C19"),
  "C12": ("exploration", "property-based testing with a panic hook, overflow-checked build and a watchdog thread per case (parsers on generated/mutated bitstreams, raw-valued API histories); libFuzzer targets for the thorough tier",
-         "Every public parser, the progressive API and the fragmented API are driven with arbitrary and boundary values; any panic, arithmetic overflow or call exceeding the deadline (10 s, confirmed at 60 s) is a violation.",
+         "Every public parser, the progressive API and the fragmented API are driven with arbitrary and boundary values; any panic, arithmetic overflow or call exceeding the deadline (10 s, confirmed at 60 s) is a violation. Display/Debug of the codec enums and of every returned error also run under width / fill / alignment / precision specifications; the generators of C04, C07, C16 and C18 are borrowed and judged for panics only.",
          "Trusted: overflow-checked release build behaves like the user's build apart from the checks; contract_test/assert_invariant are documented to panic and excluded.", "3/C12"),
  "C17": ("exploration", "property-based testing: byte equality across instances, 1..16 concurrent threads, 9 sink types and pairs of equivalent API paths; plus a compile probe for the type-level Send/Sync clause",
-         "Generated pools of histories are replayed in other instances, threads and sinks and through alias/finish/none/encode paths; all must equal the single-threaded reference byte for byte.",
+         "Generated pools of histories are replayed in other instances, threads and sinks and through alias/finish/none/encode paths; all must equal the single-threaded reference byte for byte. Muxers of a pool (progressive, fragmented, mixed) are also kept alive together on one thread and driven alternately; after a muxer whose sink failed at each of its write calls the next recordings on the thread are compared with their references; child processes vary environment variables and the kind of file behind the standard streams (null, file, pseudo-terminal).",
          "The 'for all W: Send' clause is decided by the compiler on harness/send_probe, not by generated search (declared).", "3/C17"),
  "C20": ("exploration", "property-based testing: subprocess (built CLI) vs in-process library differential over a generated option grammar and input-file classes",
-         "Generated command lines are run against the binary built from the working tree; output file and reported counts must equal the library's, invalid cases must exit non-zero without a completion report, validate verdicts follow the stated rule, info terminates and lists the reader's top-level boxes.",
+         "Generated command lines are run against the binary built from the working tree; output file and reported counts must equal the library's, invalid cases must exit non-zero without a completion report, validate verdicts follow the stated rule, info terminates and lists the reader's top-level boxes. Output and input paths are also spelt relative to the child's working directory; titles up to ~120 mixed-width characters.",
          "Trusted: in-process run uses the same single-frame-at-t=0 convention the CLI documents; 20 s process deadline.", "3/C20"),
 }
 NOT_YET = {
